@@ -695,12 +695,25 @@ func Harness_app_sequence() {
 		}
 		return hApp(-1, append(append(append([]string{}, base...), g...), rest...)...)
 	}
-	o1, e1 := run(variants[bi])
+	// the command as a fresh process (natively a child process) ...
+	split := func(v []string) []string {
+		var g, rest []string
+		for _, a := range v {
+			if strings.HasPrefix(a, "--") && len(rest) == 0 && a != "--shorten" {
+				g = append(g, a)
+			} else {
+				rest = append(rest, a)
+			}
+		}
+		return append(append(append([]string{"hranoprovod-cli"}, base...), g...), rest...)
+	}
+	fresh, code := verifMainOut(split(variants[bi]))
+	// ... and in one process after another command with other flags
 	run(variants[ai])
 	o2, e2 := run(variants[bi])
 	verifCover("ran-twice")
-	verifAssert("same-error-status", (e1 == nil) == (e2 == nil))
-	verifAssert("same-output-after-another-command", o1 == o2)
+	verifAssert("same-error-status", (code == 0) == (e2 == nil))
+	verifAssert("same-output-after-another-command", fresh == o2)
 }
 
 // Harness_app_maxdepth: the resolve depth reaches every command that resolves the book, from
